@@ -87,3 +87,14 @@ Theorem C03_chunk_scalars : forall (K : Fld) ofN mode ms ws z r sc,
     (r = Err \/ z = true).
 Proof. exact verify_chunk_scalars. Qed.
 Print Assumptions C03_chunk_scalars.
+
+(** "only if", as far as it is deterministic: a member whose textbook residual is non-zero lets the batch
+    product vanish for at most ONE value of its own weight (other members and weights fixed) *)
+From BP Require Import Proofs.BatchOnlyIfP.
+Theorem C03_bad_member_unique_weight : forall (K : Fld), FldOk K -> forall (M : Mod K), ModOk K M -> forall (H : M) (Gb G Hv : list M)
+  (pre post : list (bmember K M)) (b : bmember K M) (w w' : K),
+  b_residual K M H Gb G Hv b <> v0 M ->
+  weighted_residuals K M H Gb G Hv (pre ++ with_weight K M b w :: post) = v0 M ->
+  weighted_residuals K M H Gb G Hv (pre ++ with_weight K M b w' :: post) = v0 M -> w = w'.
+Proof. exact bad_member_unique_weight. Qed.
+Print Assumptions C03_bad_member_unique_weight.
